@@ -37,7 +37,8 @@ CONSTANTS
   HdrLen,      \* bytes of a message header (8)
   Peek, Slack, LoseTail,
   Streams,     \* receive side: set of [frames |-> sequence of [id, kind, size, len], max |-> maximum message size, 0 = none]
-  Cuts,        \* "all": every segmentation;  "near": segments end only next to a header end or a frame end;  "sample": KSet
+  Cuts,        \* "all": every segmentation;  "near": segments end only next to a header end or a frame end;
+               \* "ones": single bytes;  "sample": KSet
   MaxRun,      \* a Read step may stand for up to MaxRun consecutive reads of the same size (1 = plain reads)
   Scripts,     \* send side: set of sequences of messages; a message is the sequence of the sizes of its secured chunks
   MaxIdle      \* send side: number of Pending / zero-byte answers of the socket per behaviour
@@ -117,13 +118,16 @@ SegSizes(fr, p) ==
   LET rem == Total(fr) - p IN
   CASE Cuts = "all"  -> 1..rem
     [] Cuts = "near" -> {k \in 1..rem : p + k \in NearPoints(fr) \cup {Total(fr)}}
+    [] Cuts = "ones" -> {1}                                   \* the all-single-bytes schedule
     [] OTHER         -> KSet(fr, p)
 
 RunLens(fr, p, k) ==
-  IF MaxRun = 1 THEN {1}
-  ELSE LET rem == Total(fr) - p
-           full == (rem + k - 1) \div k IN
-       {c \in {1, 2, 3, 8, 9, 16, full} : c >= 1 /\ c <= full /\ c <= MaxRun}
+  LET rem == Total(fr) - p
+      full == (rem + k - 1) \div k
+      most == IF full > MaxRun THEN MaxRun ELSE full IN
+  IF Cuts = "ones" THEN {most}
+  ELSE IF MaxRun = 1 THEN {1}
+  ELSE {c \in {1, 2, 3, 8, 9, 16, most} : c >= 1 /\ c <= most}
 
 Read(k, cnt) ==
   /\ ~derr /\ ~eof /\ pos < Total(str.frames)
@@ -247,16 +251,21 @@ End ==
                 want |-> Len(secured), st |-> Proj(x.b)]
   /\ UNCHANGED <<scr, nm, secured, idle, busy, dvars>>
 
+\* write sizes: "near" = the write ends 1 or 2 bytes into the chunk, in its middle, 1 byte before its end or at its end
 SockSizes(b) ==
   LET off == IF b.reading THEN b.end - b.pos ELSE 0 IN
-  IF Cuts = "all" THEN 1..off
-  ELSE {k \in KBase \cup {off - 1, off, off \div 2} : k >= 1 /\ k <= off}
+  CASE Cuts = "all"  -> 1..off
+    [] Cuts = "near" -> {k \in 1..off : b.pos + k \in {1, 2, b.end \div 2, b.end - 1, b.end}}
+    [] Cuts = "ones" -> {k \in {1} : off >= 1}
+    [] OTHER         -> {k \in KBase \cup {off - 1, off, off \div 2} : k >= 1 /\ k <= off}
 
 SockRuns(b, k) ==
-  IF MaxRun = 1 THEN {1}
-  ELSE LET off == IF b.reading THEN b.end - b.pos ELSE 0
-           full == (off + k - 1) \div k IN
-       {c \in {1, 2, 3, 8, full} : c >= 1 /\ c <= full /\ c <= MaxRun}
+  LET off == IF b.reading THEN b.end - b.pos ELSE 0
+      full == (off + k - 1) \div k
+      most == IF full > MaxRun THEN MaxRun ELSE full IN
+  IF Cuts = "ones" THEN {most}
+  ELSE IF MaxRun = 1 THEN {1}
+  ELSE {c \in {1, 2, 3, 8, most} : c >= 1 /\ c <= most}
 
 SbInit ==
   /\ scr \in Scripts /\ nm = 0 /\ sb = SbEmpty /\ emitted = <<>> /\ secured = <<>> /\ idle = 0 /\ busy = FALSE
